@@ -753,7 +753,10 @@ impl Env {
         match self.a_rx_single_decide(win, buf) {
             Some(n) => {
                 self.a_rx_single_end(pos, format!("Rx({n})"));
-                Ok(aradio::RxStatus::Rx(n, aradio::RxQuality::new(-80, 5)))
+                {
+                    let (rssi, snr) = rx_quality(&buf[..n.min(buf.len())]);
+                    Ok(aradio::RxStatus::Rx(n, aradio::RxQuality::new(rssi, snr)))
+                }
             }
             None => {
                 self.a_rx_single_end(pos, "RxTimeout".into());
@@ -810,7 +813,10 @@ impl Env {
             }
             (pos, Ok(n)) => {
                 self.a_rx_continuous_end(pos, format!("Rx({n})"));
-                Some(Ok((n, aradio::RxQuality::new(-80, 5))))
+                {
+                    let (rssi, snr) = rx_quality(&buf[..n.min(buf.len())]);
+                    Some(Ok((n, aradio::RxQuality::new(rssi, snr))))
+                }
             }
         }
     }
@@ -891,7 +897,10 @@ impl Env {
                     }
                     NbPhyEvent::FrameReady => {
                         self.push(Ev::NbPhy { what: format!("FrameReady({}) -> RxDone", self.nb_rx_buf.len()), pos });
-                        Ok(nradio::Response::RxDone(nradio::RxQuality::new(-80, 5)))
+                        {
+                            let (rssi, snr) = rx_quality(&self.nb_rx_buf);
+                            Ok(nradio::Response::RxDone(nradio::RxQuality::new(rssi, snr)))
+                        }
                     }
                     NbPhyEvent::Noise => {
                         self.push(Ev::NbPhy { what: "Noise -> Idle".into(), pos });
@@ -905,6 +914,18 @@ impl Env {
 
 /// The 16-bit to 32-bit reconstruction of the property statement: the unique N with
 /// N = wire (mod 2^16) and last < N <= last + 16384 (any wire value for the first downlink).
+/// Signal quality the stub radio reports for a received frame: a function of the frame's bytes (so that twin runs
+/// report the same quality for the same frame), covering the extremes of the value range (the SNR feeds the
+/// DevStatusAns margin, a 6-bit field).
+pub fn rx_quality(bytes: &[u8]) -> (i16, i8) {
+    let mut h = simcore::Fnv::new();
+    h.bytes(bytes);
+    let x = h.finish();
+    const SNR: [i8; 12] = [5, 5, 5, -128, -33, -32, -20, -1, 0, 31, 32, 127];
+    const RSSI: [i16; 6] = [-80, -80, -140, -1, 0, i16::MIN];
+    (RSSI[((x >> 8) % 6) as usize], SNR[(x % 12) as usize])
+}
+
 pub fn cand_counter(last: Option<u32>, wire: u16) -> Option<u32> {
     match last {
         None => Some(wire as u32),
